@@ -74,6 +74,8 @@ class ObsHarness(ex.Harness):
             def queue_events(self, timeout):
                 if self.k < len(self.script):
                     tag = self.script[self.k]
+                    if tag.startswith("slow"):
+                        vsched.vtime.sleep(2.5)      # one pass of this emitter takes longer than its timeout
                     ev = events.FileCreatedEvent(f"{self.watch.path}/{tag}")
                     eid = (self.wname, self.inst, self.k, tag)
                     keep.append(ev)
@@ -393,6 +395,15 @@ def check_dispatch(h, res, *, c04=True, c05=True):
                     continue
                 v("callback-in-progress-at-removal", f"{op} returned at {c['ret']} while {hn} was inside its callback for {eid}")
             # emitter of an unscheduled watch has stopped and queues nothing later
+            if op[0] in ("unschedule", "unschedule_all", "stop"):
+                for eid, ev in events.items():
+                    if ev["q"] > c["ret"] and (op[0] != "unschedule" or eid[0] == op[1]):
+                        # queued by an emitter instance that existed before the call?
+                        born = [cc for cc in calls if cc["op"][0] == "schedule" and cc["op"][2] == eid[0]
+                                and cc["call"] > c["call"]]
+                        if not born and not (c["tid"].startswith("R")):
+                            v("emitter-queues-after-unschedule", f"{op} returned at {c['ret']} but the emitter of {eid[0]} "
+                                                                 f"queued {eid} afterwards (at {ev['q']})")
             if op[0] in ("unschedule", "unschedule_all", "stop") and c["extra"]:
                 if any(c["extra"]):
                     v("emitter-alive-after-unschedule", f"{op} returned but an emitter thread of the removed "
